@@ -7,6 +7,7 @@ import (
 	"encoding/hex"
 	"math"
 	"sort"
+	"strconv"
 	"testing"
 
 	mapset "github.com/deckarep/golang-set/v2"
@@ -100,7 +101,7 @@ func TestVerif_C02_ranges(t *testing.T) {
 	sink := vOpenSink("C02_rng")
 	defer sink.Close()
 	for i := 0; i < n; i++ {
-		limit := vPick(r, []uint64{1, 2, 3, 16, 256, 256, 256, 257, 1 << 63, vC02Max})
+		limit := vPick(r, []uint64{1, 2, 3, 16, 255, 256, 256, 256, 257, 300, 1000, 1 << 63, vC02Max})
 		if r.Chance(1, 40) {
 			limit = 0
 		}
@@ -262,8 +263,9 @@ func (vC02Hasher) Hash(_ context.Context, m cciptypes.Message) (cciptypes.Bytes3
 
 type vC02Answer struct {
 	err  bool
-	msgs []cciptypes.Message
+	msgs []cciptypes.Message // what the reader answers to a request for the interval of the case
 	cls  string
+	db   []cciptypes.Message // class honest-db: the reader holds these and answers every request with those inside it
 }
 
 func vC02Msg(r *vRand, seq uint64, src uint64) cciptypes.Message {
@@ -283,15 +285,18 @@ func vC02Msg(r *vRand, seq uint64, src uint64) cciptypes.Message {
 }
 
 // reader answer for the request (k, [s,e]); classes follow the quantifier of C02
-func vC02GenAnswer(r *vRand, k, s, e uint64) vC02Answer {
-	cls := vPick(r, []string{"complete", "complete", "complete", "complete-unordered", "prefix", "suffix", "gap",
+func vC02GenAnswer(r *vRand, k, s, e uint64, force string) vC02Answer {
+	cls := vPick(r, []string{"complete", "complete", "honest-db", "honest-db", "complete-unordered", "prefix", "suffix", "gap",
 		"duplicate-extra", "duplicate-replace", "shifted-up", "shifted-down", "extra-above", "extra-below",
 		"wrong-chain-one", "wrong-chain-all", "empty", "nil", "error", "hasher-error", "one-short-window"})
+	if force != "" {
+		cls = force
+	}
 	a := vC02Answer{cls: cls}
 	var seqs []uint64
 	if s <= e {
 		cnt := e - s + 1
-		if cnt == 0 || cnt > 40 { // huge or full range: answer with a few messages at the start
+		if cnt == 0 || cnt > 2000 { // huge or full range: answer with a few messages at the start
 			cnt = 3
 		}
 		for q := uint64(0); q < cnt; q++ {
@@ -318,6 +323,37 @@ func vC02GenAnswer(r *vRand, k, s, e uint64) vC02Answer {
 				sh[i] = a.msgs[p[i]]
 			}
 			a.msgs = sh
+		}
+	case "honest-db":
+		// an honest, complete reader: it holds every message of the interval and some around it, and answers a
+		// request with exactly the messages whose sequence number lies inside the requested range
+		var qs []uint64
+		for d := uint64(2); d >= 1; d-- {
+			if seqs[0] >= d {
+				qs = append(qs, seqs[0]-d)
+			}
+		}
+		qs = append(qs, seqs...)
+		for d := uint64(1); d <= 2; d++ {
+			if seqs[n-1] <= vC02Max-d {
+				qs = append(qs, seqs[n-1]+d)
+			}
+		}
+		a.db = mk(qs)
+		if r.Chance(1, 3) {
+			p := r.Perm(len(a.db))
+			sh := make([]cciptypes.Message, len(a.db))
+			for i := range p {
+				sh[i] = a.db[p[i]]
+			}
+			a.db = sh
+		}
+		rg := cciptypes.NewSeqNumRange(cciptypes.SeqNum(s), cciptypes.SeqNum(e))
+		a.msgs = []cciptypes.Message{}
+		for _, m := range a.db {
+			if rg.Contains(m.Header.SequenceNumber) {
+				a.msgs = append(a.msgs, m)
+			}
 		}
 	case "complete-unordered":
 		ms := mk(seqs)
@@ -417,6 +453,13 @@ func TestVerif_C02_roots(t *testing.T) {
 		if r.Chance(1, 12) {
 			nr = 0
 		}
+		// the first cases of every run: one interval around / above the size of one merkle tree (256 leaves),
+		// completely read; large intervals are kept few because each carries its full hash table
+		bigSizes := []int{255, 256, 257, 300, 1000, 257, 300, 256, 513, 300}
+		big := i < len(bigSizes) && n >= 50
+		if big {
+			nr = 1
+		}
 		keyPool := []uint64{1, 2, 3, 5, 8, 13, 1 << 40, vC02Max}
 		perm := r.Perm(len(keyPool))
 		var ranges []plugintypes.ChainRange
@@ -429,17 +472,26 @@ func TestVerif_C02_roots(t *testing.T) {
 		for c := 0; c < nr; c++ {
 			k := keyPool[perm[c]]
 			size := uint64(vPick(r, []int{1, 1, 2, 3, 4, 5, 7, 8, 9, 16, 17}))
+			if r.Chance(1, 60) {
+				size = uint64(vPick(r, []int{255, 256, 257, 258, 300}))
+			}
 			var s uint64
 			shape := vPick(r, []string{"mid", "mid", "mid", "zero", "max", "inverted", "full"})
 			if r.Chance(9, 10) {
 				shape = vPick(r, []string{"mid", "zero", "max"})
 			}
+			force := ""
+			if big {
+				size = uint64(bigSizes[i])
+				shape = vPick(r, []string{"mid", "mid", "zero", "max"})
+				force = vPick(r, []string{"honest-db", "honest-db", "complete"})
+			}
 			e := uint64(0)
 			switch shape {
 			case "mid":
 				s = 1 + r.U64()>>uint(r.Range(1, 63))
-				if s > vC02Max-100 {
-					s = vC02Max - 100
+				if s > vC02Max-2000 {
+					s = vC02Max - 2000
 				}
 				e = s + size - 1
 			case "zero":
@@ -455,17 +507,24 @@ func TestVerif_C02_roots(t *testing.T) {
 			}
 			ksel := cciptypes.ChainSelector(k)
 			ranges = append(ranges, plugintypes.ChainRange{ChainSel: ksel, SeqNumRange: cciptypes.NewSeqNumRange(cciptypes.SeqNum(s), cciptypes.SeqNum(e))})
-			a := vC02GenAnswer(r, k, s, e)
+			a := vC02GenAnswer(r, k, s, e, force)
 			answers[ksel] = a
 			clsAll += shape + "/" + a.cls + ","
-			supported := !r.Chance(1, 8)
+			if size >= 255 {
+				clsAll += "size-" + strconv.FormatUint(size, 10) + ","
+			}
+			supported := !r.Chance(1, 8) || big
 			if supported {
 				sup = append(sup, ksel)
 				if !a.err {
 					ntCase = true
 				}
 			}
-			switch r.Intn(10) {
+			addrPick := r.Intn(10)
+			if big {
+				addrPick = 9
+			}
+			switch addrPick {
 			case 0:
 				addrErr[ksel] = true
 			case 1:
@@ -480,12 +539,19 @@ func TestVerif_C02_roots(t *testing.T) {
 			ranges = append(ranges, ranges[0])
 			clsAll += "dup-range,"
 		}
-		supErr := r.Chance(1, 15)
+		supErr := r.Chance(1, 15) && !big
 		rd := &vCCIPReader{
 			MsgsFn: func(chain cciptypes.ChainSelector, rg cciptypes.SeqNumRange) ([]cciptypes.Message, error) {
 				a := answers[chain]
 				var cp []cciptypes.Message
-				if a.msgs != nil {
+				if a.db != nil {
+					cp = []cciptypes.Message{}
+					for _, m := range a.db {
+						if rg.Contains(m.Header.SequenceNumber) {
+							cp = append(cp, m)
+						}
+					}
+				} else if a.msgs != nil {
 					cp = append(make([]cciptypes.Message, 0, len(a.msgs)), a.msgs...)
 				}
 				if a.err {
@@ -602,6 +668,9 @@ func TestVerif_C02_roots(t *testing.T) {
 		}
 		if supErr {
 			cls = "supported-error"
+		}
+		if big {
+			cls = "tree-size-" + strconv.Itoa(bigSizes[i]) + "/" + cls
 		}
 		sink.Emit("C02_roots", cls, ntCase && !supErr, cPair(input, cList(outL)),
 			map[string]any{"ranges": len(ranges), "classes": clsAll, "roots": len(roots)})
